@@ -12,8 +12,9 @@ pub struct ZmqCodec { _p: u8 }
 
 /// asynchronous-codec FramedRead: `next` may yield ANY item (peer controlled); ghost log of yielded items
 pub struct FramedRead<T, U> { pub log: Ghost<Seq<Option<CodecResult<Message>>>>, pub _t: core::marker::PhantomData<(T, U)> }
-/// asynchronous-codec FramedWrite: `send` = feed + flush; ghost log of flushed items
-pub struct FramedWrite<T, U> { pub sent: Ghost<Seq<Message>>, pub _t: core::marker::PhantomData<(T, U)> }
+/// asynchronous-codec FramedWrite / futures SinkExt: `feed` only buffers, `flush` puts the buffered items on the
+/// wire, `send` = feed + flush.  Ghost logs: `sent` = flushed (on the wire), `pending` = buffered only.
+pub struct FramedWrite<T, U> { pub sent: Ghost<Seq<Message>>, pub pending: Ghost<Seq<Message>>, pub _t: core::marker::PhantomData<(T, U)> }
 impl<T, U> FramedRead<T, U> {
     #[verifier::external_body]
     pub fn next(&mut self) -> (r: Option<CodecResult<Message>>)
@@ -24,9 +25,25 @@ impl<T, U> FramedWrite<T, U> {
     #[verifier::external_body]
     pub fn send(&mut self, item: Message) -> (r: Result<(), CodecError>)
         ensures
-            r is Ok ==> final(self).sent@ == old(self).sent@.push(item),
+            r is Ok ==> final(self).sent@ == old(self).sent@ + old(self).pending@.push(item) && final(self).pending@ == Seq::<Message>::empty(),
             r is Err ==> final(self).sent@ == old(self).sent@,
     { unimplemented!() }
+    #[verifier::external_body]
+    pub fn feed(&mut self, item: Message) -> (r: Result<(), CodecError>)
+        ensures
+            final(self).sent@ == old(self).sent@,
+            r is Ok ==> final(self).pending@ == old(self).pending@.push(item),
+    { unimplemented!() }
+    #[verifier::external_body]
+    pub fn flush(&mut self) -> (r: Result<(), CodecError>)
+        ensures
+            r is Ok ==> final(self).sent@ == old(self).sent@ + old(self).pending@ && final(self).pending@ == Seq::<Message>::empty(),
+            r is Err ==> final(self).sent@ == old(self).sent@,
+    { unimplemented!() }
+}
+/// by the time the call returned, everything buffered before plus `m` is on the wire, nothing is left buffered
+pub open spec fn flushed_one<T, U>(w0: FramedWrite<T, U>, w1: FramedWrite<T, U>, m: Message) -> bool {
+    w1.sent@ =~= w0.sent@ + w0.pending@.push(m) && w1.pending@.len() == 0
 }
 //@ item src/codec/framed.rs :: type ZmqFramedRead
 //@ end
